@@ -289,6 +289,9 @@ theorem cst_lexM_modulo : (c : Cst) → c.lexM.filter keep = (c.lex.map normLex)
   | .un op c _ e => by
     simp only [Cst.lexM, Cst.lex, List.map_append, List.map_cons, List.filter_append, List.filter_cons, cst_lexM_modulo e,
       map_normLex_lexGC, normLex]
+  | .bin l c1 _ op c2 _ r => by
+    simp only [Cst.lexM, Cst.lex, List.map_append, List.map_cons, List.filter_append, List.filter_cons, cst_lexM_modulo l,
+      cst_lexM_modulo r, map_normLex_lexGC, normLex]
 theorem items_lexM_modulo : (its : Items) → its.lexM.filter keep = (its.lex.map normLex).filter keep
   | .nil => rfl
   | .cmt _ t rest => by
